@@ -268,7 +268,7 @@ Proof.
     destruct (seval rho b) as [y| | |] eqn:Sb; try contradiction.
     2:{ split; [exact I|]. intros pre Hp. cbn [leval]. rewrite (Ca pre Hp), (Cb pre Hp). reflexivity. }
     destruct (bit_word op T x y ltac:(assumption) Hs (val_ok_int _ _ Ga) (val_ok_int _ _ Gb)) as [Hw Hr].
-    split; [exact Hr|]. intros pre Hp. cbn [leval]. rewrite (Ca pre Hp), (Cb pre Hp). cbn [enc_out]. rewrite Hw. reflexivity.
+    split; [exact Hr|]. intros pre Hp. cbn [leval]. rewrite (Ca pre Hp), (Cb pre Hp). cbn [enc_out]. unfold enc. rewrite Hw. reflexivity.
   - (* XCmp *)
     repeat (apply andb_true_iff in W; destruct W as [W ?]).
     apply andb_true_iff in E. destruct E as [Ea Eb].
@@ -282,7 +282,7 @@ Proof.
     2:{ split; [exact I|]. intros pre Hp. cbn [leval]. rewrite (Ca pre Hp), (Cb pre Hp). reflexivity. }
     split; [cbn; destruct (cmp_fun op x y); reflexivity|].
     intros pre Hp. cbn [leval]. rewrite (Ca pre Hp), (Cb pre Hp). cbn [enc_out].
-    rewrite (cmp_word op t x y) by assumption. rewrite b2z_wrap. reflexivity.
+    unfold enc. rewrite (cmp_word op t x y) by assumption. rewrite b2z_wrap. reflexivity.
   - (* XAnd *)
     repeat (apply andb_true_iff in W; destruct W as [W ?]).
     apply andb_true_iff in E. destruct E as [Ea Eb].
@@ -344,10 +344,10 @@ Proof.
     { intros e0 er Her. rewrite ty_lo_s. cbn [leval]. rewrite Her. cbn [ev2]. unfold w_sgt.
       rewrite (ts_wrap x Sx), (ts_wrap (- Hb k) Sl).
       destruct (x >? - Hb k) eqn:Gt.
-      - cbn [b2z Z.eqb]. rewrite Her.
+      - cbn [b2z Z.eqb].
         replace (in_rangeb (Build_nty k true false) (- x)) with true.
         2:{ symmetry. apply in_rangeb_iff. unfold in_range. rewrite ty_lo_s, ty_hi_s. lia. }
-        cbn [enc_out]. f_equal. change (wrap 0) with 0. unfold w_sub, wrap. f_equal. lia.
+        cbn [enc_out ev2]. rewrite w_sub_wrap. unfold enc. do 2 f_equal.
       - cbn [b2z Z.eqb].
         replace (in_rangeb (Build_nty k true false) (- x)) with false; [reflexivity|].
         symmetry. apply not_true_iff_false. intros C. apply in_rangeb_iff in C. unfold in_range in C.
@@ -355,16 +355,16 @@ Proof.
     split.
     { destruct (in_rangeb (Build_nty k true false) (- x)) eqn:R; [exact R | exact I]. }
     intros pre Hp. destruct ic; cbn [m_cache].
-    + destruct (lit_case a _ (IC eq_refl)) as (T' & v' & ->). cbn [seval] in Sa. inversion Sa; subst. cbn [compile].
+    + destruct (lit_case a (Build_nty k true false) (IC eq_refl)) as (T' & v' & ->). cbn [seval] in Sa. inversion Sa; subst. cbn [compile].
       apply Key. reflexivity.
     + (* with clamp_arg *)
       rewrite ty_lo_s. cbn [leval]. rewrite (Ca pre Hp). cbn [enc_out lookup String.eqb Ascii.eqb Bool.eqb ev2].
-      unfold w_sgt. rewrite (ts_wrap x Sx), (ts_wrap (- Hb k) Sl).
+      unfold enc, w_sgt. rewrite (ts_wrap x Sx), (ts_wrap (- Hb k) Sl).
       destruct (x >? - Hb k) eqn:Gt.
       * cbn [b2z Z.eqb].
         replace (in_rangeb (Build_nty k true false) (- x)) with true.
         2:{ symmetry. apply in_rangeb_iff. unfold in_range. rewrite ty_lo_s, ty_hi_s. lia. }
-        cbn [enc_out]. f_equal. change (wrap 0) with 0. unfold w_sub, wrap. f_equal. lia.
+        cbn [enc_out ev2]. rewrite w_sub_wrap. unfold enc. do 2 f_equal.
       * cbn [b2z Z.eqb].
         replace (in_rangeb (Build_nty k true false) (- x)) with false; [reflexivity|].
         symmetry. apply not_true_iff_false. intros C. apply in_rangeb_iff in C. unfold in_range in C.
